@@ -1514,61 +1514,103 @@ protected:
     return last == "chunked";
   }
 
-  /// \brief Find the end of a chunked request body
-  /// findChunkedRequestEnd result for a chunk-size line that is not a number
-  /// (std::string::npos means "need more data").
+  /// \brief Find the end of a chunked request body (RFC 9112 §7.1), strictly:
+  /// chunk-size is 1*HEXDIG, optionally followed by BWS and a chunk-ext (ignored);
+  /// every line ends in CRLF; chunk data is followed by CRLF; the trailer section
+  /// is consumed through its final empty line. Returns one past the final CRLF,
+  /// std::string::npos for "need more data", or kChunkedInvalid for a body that
+  /// no further bytes can repair. If \p decoded is given, the chunk data is
+  /// appended to it.
   static constexpr std::size_t kChunkedInvalid = std::string::npos - 1;
 
-  std::size_t findChunkedRequestEnd(const std::string &data, std::size_t bodyStart) const
+  static std::size_t findChunkedRequestEnd(const std::string &data, std::size_t bodyStart,
+                                           std::string *decoded = nullptr)
   {
+    auto isHex = [](char c)
+    { return (c >= '0' && c <= '9') || (c >= 'a' && c <= 'f') || (c >= 'A' && c <= 'F'); };
     std::size_t pos = bodyStart;
 
-    while (pos < data.length())
+    while (true)
     {
-      // Find chunk size line
-      auto chunkSizeLine = data.find("\r\n", pos);
-      if (chunkSizeLine == std::string::npos)
+      // chunk-size line
+      const std::size_t nl = data.find('\n', pos);
+      if (nl == std::string::npos)
       {
         return std::string::npos; // Need more data
       }
-
-      // Parse chunk size (hex)
-      std::string chunkSizeStr = data.substr(pos, chunkSizeLine - pos);
-      std::size_t chunkSize;
-      try
+      if (nl == pos || data[nl - 1] != '\r')
       {
-        chunkSize = std::stoul(chunkSizeStr, nullptr, 16);
+        return kChunkedInvalid; // lone LF
       }
-      catch (...)
+      const std::size_t lineEnd = nl - 1; // index of '\r'
+      std::size_t hexEnd = pos;
+      while (hexEnd < lineEnd && isHex(data[hexEnd]))
+      {
+        ++hexEnd;
+      }
+      std::uint64_t chunkSize = 0;
+      if (hexEnd == pos)
+      {
+        return kChunkedInvalid; // no chunk-size digits
+      }
+      auto r = std::from_chars(data.data() + pos, data.data() + hexEnd, chunkSize, 16);
+      if (r.ec != std::errc() || r.ptr != data.data() + hexEnd ||
+          chunkSize > SessionInfo::MAX_BODY_SIZE)
+      {
+        iora::core::Logger::error("HttpServer: Invalid chunk size in chunked encoding");
+        return kChunkedInvalid; // overflow / beyond the body limit
+      }
+      // After the digits: CRLF, or BWS* ';' chunk-ext (ignored). Anything else
+      // ("5 \r\n", "5abc", "0x5", "+5") is malformed.
+      std::size_t q = hexEnd;
+      while (q < lineEnd && (data[q] == ' ' || data[q] == '\t'))
+      {
+        ++q;
+      }
+      if ((q < lineEnd && data[q] != ';') || (q == lineEnd && q != hexEnd))
       {
         iora::core::Logger::error("HttpServer: Invalid chunk size in chunked encoding");
         return kChunkedInvalid;
       }
-
-      pos = chunkSizeLine + 2; // Skip \r\n
+      pos = nl + 1;
 
       if (chunkSize == 0)
       {
-        // Final chunk, look for final \r\n
-        auto finalCRLF = data.find("\r\n", pos);
-        if (finalCRLF == std::string::npos)
+        // last-chunk: consume the trailer section through its final empty line
+        while (true)
         {
-          return std::string::npos; // Need more data
+          const std::size_t tnl = data.find('\n', pos);
+          if (tnl == std::string::npos)
+          {
+            return std::string::npos; // Need more data
+          }
+          if (tnl == pos || data[tnl - 1] != '\r')
+          {
+            return kChunkedInvalid;
+          }
+          if (tnl - 1 == pos)
+          {
+            return tnl + 1;
+          }
+          pos = tnl + 1;
         }
-        return finalCRLF + 2;
       }
 
-      // Skip chunk data + trailing \r\n. Subtraction-based bounds: pos + chunkSize + 2
-      // wraps for a chunk size near SIZE_MAX (e.g. "FFFFFFFFFFFFFFEC"), which used to
-      // move pos back onto the same chunk-size line and spin this loop forever.
+      // chunk data + CRLF. Subtraction-based bounds: pos + chunkSize + 2 must not wrap.
       if (chunkSize > data.length() - pos || data.length() - pos - chunkSize < 2)
       {
         return std::string::npos; // Need more data
       }
-      pos += chunkSize + 2;
+      if (data[pos + chunkSize] != '\r' || data[pos + chunkSize + 1] != '\n')
+      {
+        return kChunkedInvalid;
+      }
+      if (decoded)
+      {
+        decoded->append(data, pos, static_cast<std::size_t>(chunkSize));
+      }
+      pos += static_cast<std::size_t>(chunkSize) + 2;
     }
-
-    return std::string::npos;
   }
 
   /// \brief Compute the Allow header value for a request path by evaluating the
